@@ -3,6 +3,7 @@ package main
 // The service both peers expose, and the remote definition both peers implement.
 
 import (
+	"strings"
 	"context"
 	"errors"
 	"fmt"
@@ -360,6 +361,10 @@ func (s *Svc) EchoAll(ctx context.Context, a int, b string, c []byte, d []int, e
 	s.mu.Lock()
 	s.lastAll = All{a, b, c, d, e, f, g, h, i, j, k, l}
 	s.mu.Unlock()
+	if strings.HasPrefix(b, "ERR:") {
+		// a value together with an error (partial result): both must reach the caller
+		return All{a, b, c, d, e, f, g, h, i, j, k, l}, errors.New(b)
+	}
 	return All{a, b, c, d, e, f, g, h, i, j, k, l}, nil
 }
 
